@@ -214,3 +214,12 @@ def str_elems(s):
     if isinstance(s, SymStr):
         return s.elems
     raise TypeError('not an indexable string: %r' % (s,))
+
+
+class Redirect:
+    """returned by a model: perform this call instead (e.g. sync.Pool.Get -> pool.New())"""
+    __slots__ = ('callee', 'args')
+
+    def __init__(self, callee, args):
+        self.callee = callee
+        self.args = args
